@@ -136,7 +136,7 @@ def run_t1(modules: list[str], keys: list[str] | None, prop: str, ctx, timeout_m
     # budgets under load: a contract that was fully discharged on the baseline tree and now has UNDECIDED obligations is
     # verified once more on its own, after the pool has drained, with a 3x budget, before anything is reported
     for i, o in enumerate(outs):
-        if o["key"] in baseline and not o["error"] and any(x["status"] == UNDECIDED and not x["canary"] for x in o["obligations"]):
+        if o["key"] in baseline and not o["error"] and 1 <= sum(1 for x in o["obligations"] if x["status"] != HELD and not x["canary"]) <= 2 and any(x["status"] == UNDECIDED and not x["canary"] for x in o["obligations"]):
             t = tasks[i]
             outs[i] = _work((t[0], t[1], t[2], timeout_ms * 3, t[4], 0))
             outs[i]["cross"] = o["cross"]
